@@ -43,6 +43,10 @@ structure FactsXml where
   /-- `unicode_from_element` validates the empty string for an empty element (otherwise it validates
       `None` and a non-nillable string can never be empty under soft validation) -/
   emptyStringText : Bool
+  /-- the incremental writer (`ctx.out_stream` set: `serialize` → `incgen` → `to_parent` on an
+      `etree.xmlfile`) emits the same element tree as the document builder; measured on a witness with
+      subclass instances, nil and repeated members, and compared on every response in T2 -/
+  streamSameTree : Bool
   deriving Repr, DecidableEq
 
 structure FactsXml.Good (X : FactsXml) : Prop where
@@ -357,6 +361,25 @@ end
 /-- serialisation of a message object: one element `{ns}name` -/
 def encode (F : Facts08) (cfg : Cfg) (I : Iface) (ns name : Text) (t : Ty) (v : Val) : List Node :=
   toParent F cfg I ns name t v
+
+/-! ## The second emission path -/
+
+mutual
+  /-- what the streamed tree looks like when the writer drops the attributes of object elements -/
+  def stripXsiType : Node → Node
+    | .elem ns name attrs text children =>
+      .elem ns name (attrs.filter (fun a => a.1 ≠ xsiTypeKey)) text (stripXsiTypes children)
+
+  def stripXsiTypes : List Node → List Node
+    | [] => []
+    | c :: cs => stripXsiType c :: stripXsiTypes cs
+end
+
+/-- serialisation to `ctx.out_stream`: lxml's incremental API is an oracle; the code paths share
+    `to_parent` / `_get_members_etree` and differ only in how `gen_members_parent` opens the element -/
+def encodeStream (F : Facts08) (X : FactsXml) (cfg : Cfg) (I : Iface) (ns name : Text) (t : Ty) (v : Val) : List Node :=
+  if X.streamSameTree then encode F cfg I ns name t v
+  else (encode F cfg I ns name t v).map stripXsiType
 
 /-! ## The identifications XML cannot avoid (C01) -/
 
